@@ -160,9 +160,24 @@ fn build_file(r: &mut Rng, out: &mut Vec<String>, o: &CfgOpts, max_n: u64) -> Ve
         1 => 1,
         _ => r.range(2, max_n),
     } as usize;
-    let es = gen_entries(r, n);
-    out.push(gen_cfg(r, o));
+    let mut es = gen_entries(r, n);
+    let mut cfg = gen_cfg(r, o);
+    if o.all_codecs && r.chance(1, 8) {
+        // highly compressible blocks (long runs, ratio well above 16:1) under every codec, real block sizes
+        for (i, e) in es.iter_mut().enumerate() {
+            e.1 = vec![(i % 7) as u8; 3000 + (i % 5) * 1500];
+        }
+        if let (Some(a), Some(b)) = (cfg.find("bs="), cfg.find(" iv=")) {
+            cfg = format!("{}bs=8192 minbs=1024{}", &cfg[..a], &cfg[b..]);
+        }
+    }
+    out.push(cfg);
     out.push("wnew".into());
+    if r.chance(1, 5) {
+        // the sink stages what it accepts until it is flushed; half of the time the writer is ended with
+        // `finish()` while the caller keeps its own handle on the storage
+        out.push(if r.chance(1, 2) { "wsinkwb finish".into() } else { "wsinkwb".to_string() });
+    }
     ins_lines(out, &es);
     out.push("finish".into());
     es
@@ -261,6 +276,16 @@ pub fn scenario(stream: &str, r: &mut Rng, idx: u64) -> Vec<String> {
                         m[r.below(4) as usize] ^= 1 << r.below(8);
                         b.extend(r.bytes(18));
                         b.extend_from_slice(&m);
+                    }
+                }
+                // a complete trailer followed by padding (zero bytes, a repeated byte, a second magic): the
+                // string no longer ENDS with a trailer
+                if r.chance(1, 5) {
+                    let pad = r.range(1, 9) as usize;
+                    match r.below(3) {
+                        0 => b.extend(std::iter::repeat(0u8).take(pad)),
+                        1 => b.extend(std::iter::repeat(0xffu8).take(pad)),
+                        _ => b.extend_from_slice(&0x6723D4C4u32.to_le_bytes()[..pad.min(4)]),
                     }
                 }
                 out.push(format!("open {}", hex(&b)));
@@ -607,6 +632,24 @@ pub fn scenario(stream: &str, r: &mut Rng, idx: u64) -> Vec<String> {
             }
             out.push("merge concat 0".into());
         }
+        "merge" if r.chance(1, 10) => {
+            // between 14 and 36 sources sharing keys (stack-allocated value lists of 16 / 32 slots and the like)
+            let k = *r.pick(&[14u64, 15, 16, 17, 18, 31, 32, 33, 34, 36]);
+            let shared = gen_keys(r, 3, 1);
+            for i in 0..k {
+                let mut es: Vec<Entry> = Vec::new();
+                for (j, key) in shared.iter().enumerate() {
+                    if j == 0 || r.chance(1, 2) {
+                        es.push((key.clone(), vec![b'a' + (i % 26) as u8, i as u8]));
+                    }
+                }
+                es.sort();
+                es.dedup_by(|a, b| a.0 == b.0);
+                out.push(format!("msrc {} codec=0 bs=1024", fmt_entries(&es)));
+            }
+            out.push("merge concat 0".into());
+            out.push("mergew concat 0".into());
+        }
         "merge" => {
             let k = r.below(6);
             let n = r.range(1, 30) as usize;
@@ -799,7 +842,7 @@ pub fn fault_scenarios(r: &mut Rng, idx: u64, out: &mut Vec<String>) {
             base.push("load".into());
             let ops: Vec<String> = (0..25).map(|_| format!("c 0 {}", gen_cursor_op(r, &es))).collect();
             for k in 1..40 {
-                for kind in ["seek", "read"] {
+                for kind in ["seek", "read", "seekintr"] {
                     out.push(format!("S fault-r-{}-{}-{}", idx, kind, k));
                     out.extend(base.iter().cloned());
                     out.push(format!("srcopt fault={}:{}:{}", kind, k, tag));
@@ -881,7 +924,7 @@ pub fn fault_scenarios(r: &mut Rng, idx: u64, out: &mut Vec<String>) {
                 srcs.push(format!("msrc {} codec=0 bs=1024 levels={}", fmt_entries(&es), j % 3));
             }
             for k in 1..40 {
-                for kind in ["seek", "read"] {
+                for kind in ["seek", "read", "seekintr"] {
                     out.push(format!("S fault-ms-{}-{}-{}", idx, kind, k));
                     out.extend(srcs.iter().cloned());
                     out.push(format!("srcopt fault={}:{}:{}", kind, k, tag));
